@@ -421,7 +421,7 @@ def run(db, cx):
           "variant-arms" not in failed, "%d arms" % len(arms),
           "src/orange/detail/OrangeInputIOImpl.json.cc",
           why="an alternative without an arm can be written but not read")
-    transform_layout(db, cx, arms)
+    transform_layout(db, cx, arms, set(t for t in arms if ("extent-" + t) in failed))
 
     # universe type tags
     written_tags = set()
@@ -443,7 +443,7 @@ def run(db, cx):
               why="an unknown tag aborts reading the whole geometry")
 
 
-def transform_layout(db, cx, arms):
+def transform_layout(db, cx, arms, wrong_length=()):
     """C19.5-transform-layout (A6, lib/polyinterp.py): the writer emits T::data(), the contiguous
     storage of T's members in declaration order; the reader arm of import_transform for that
     length rebuilds T from the array.  With the array elements as symbols d0..dN-1, the arm is
@@ -530,6 +530,9 @@ def transform_layout(db, cx, arms):
     done = 0
     for t, nlen in sorted(arms.items()):
         if nlen == 0:
+            continue
+        if t in wrong_length:
+            done += 1     # reported by C19.5-variants: the arm's length is not the storage extent
             continue
         cx.require(nlen in chain, "import_transform: arm for length %d not found in the AST" % nlen)
         it = Interp(f, {C + "make_span": lambda a: a[0]})
